@@ -628,7 +628,11 @@ func vfC15Cases() []vfC15Case {
 	var out []vfC15Case
 	idx := 0
 	for _, ver := range []string{"12", "13"} {
-		for _, cids := range [][2]int{{4, 4}, {8, 4}, {0, 8}, {8, 0}, {4, -1}} {
+		layouts := [][2]int{{4, 4}, {8, 4}, {0, 8}, {8, 0}, {4, -1}}
+		if vfThorough() {
+			layouts = append(layouts, [2]int{1, 1}, [2]int{16, 2}, [2]int{2, 20}, [2]int{32, 32}, [2]int{-1, 4})
+		}
+		for _, cids := range layouts {
 			for _, rrc := range []bool{true, false} {
 				for _, obs := range []string{"s", "c"} {
 					for _, sc := range vfC15Scenarios {
